@@ -30,6 +30,22 @@ extern "C" void h_mem() {
         f.close();
     }
     vp_note("write_peak", wpeak);
+#ifdef CORRUPT_OBJECT
+    {   // one malformed object (declared size 0) early in the file: reading ends there; what the library still holds
+        // afterwards must not depend on how much file follows
+        static unsigned char img[VP_FS_CAP];
+        long n = vp_fs_get("a.blf", img, sizeof img);
+        long objLen = 32 + 16 + TEXTLEN; objLen += objLen % 4;
+        long streamOff = CORRUPT_OBJECT * objLen + 8;              // objectSize field of that object in the uncompressed stream
+        long cpos = 144; long seen = 0;
+        while (cpos + 32 <= n) {
+            uint32_t osz; memcpy(&osz, img + cpos + 8, 4); uint32_t usz; memcpy(&usz, img + cpos + 24, 4);
+            for (long k = 0; k < 4; k++) { long so = streamOff + k; if (so >= seen && so < seen + (long)usz) img[cpos + 32 + (so - seen)] = 0; }
+            seen += usz; cpos += osz + osz % 4;
+        }
+        vp_fs_put("a.blf", img, n);
+    }
+#endif
     uint64_t rpeak = 0; int cnt = 0;
     {
         File g;
@@ -44,7 +60,13 @@ extern "C" void h_mem() {
             delete o; cnt++;
             if (cnt > NOBJ + 2) break;
         }
+#ifdef CORRUPT_OBJECT
+        VP_ASSERT(cnt == CORRUPT_OBJECT);
+        vp_yield();                            // the application keeps the File open for a while after the end was reported
+        { uint64_t h = vp_live_heap() - base; if (h > rpeak) rpeak = h; }
+#else
         VP_ASSERT(cnt == NOBJ);
+#endif
         g.close();
     }
     vp_note("read_peak", rpeak);
